@@ -10,6 +10,8 @@ from rv import core, fcsgen, layouts
 from rv.refmodels import textseg
 
 LEVEL = 'exploration'
+LEVEL_TEXT = 'Exhaustive comparison with an independent left-to-right tokenizer over all strings on {delimiter,a,b} up to length 10 (quick) / 14 (thorough), primary and supplemental, random dictionaries x printable delimiters, damaged encodings, files with supplemental TEXT and ANALYSIS, and an in-situ monitor on every segment any load parses. Exhaustive over the bounded string space.'
+TECHNIQUE = 'exhaustive differential monitoring against an independent reference tokenizer + in-situ segment monitor'
 RULE = ('(i) all strings over {delimiter,a,b} up to length L (quick L=10, thorough L=14), primary and '
         'supplemental, against an independent left-to-right tokenizer (exhaustive); (ii) random keyword '
         'dictionaries over a rich alphabet x printable delimiters, encoded with the doubling rule then decoded; '
